@@ -429,7 +429,8 @@ func (g *Gen) opInject(conns []*Client, pend []PendingView) {
 					}
 				}
 			case strings.HasPrefix(pv.P.Subject, "access."):
-				op.P, op.Key = g.sample("ianswer", []string{`garbage`, `{"result":5}`, `{"result":{"get":"yes"}}`, `[]`, `{"result":{"get":true,"call":5}}`, `{"meta":5}`, `{"error":"x"}`}), "inject:access/answer"
+				op.P, op.Key = g.sample("ianswer", []string{`garbage`, `{"result":5}`, `{"result":{"get":"yes"}}`, `[]`, `{"result":{"get":true,"call":5}}`, `{"meta":5}`, `{"error":"x"}`,
+					`{"meta":{"status":303}}`, `{"result":null,"meta":{"status":403}}`, `{"meta":{"status":404,"header":{"X":["y"]}}}`, `{"meta":{"status":200}}`, `{}`, `{"result":null}`}), "inject:access/answer"
 			default:
 				op.P, op.Key = g.sample("ianswer", []string{`garbage`, `{"resource":5}`, `{"resource":{"rid":5}}`, `{"resource":{"rid":"t.*"}}`, `{}`, `{"result":}`, `{"meta":{"status":"x"}}`, `{"error":{"code":5,"message":[]}}`}), "inject:call/answer"
 			}
